@@ -88,7 +88,7 @@ class ExprMixin:
         if not self.spec:
             self.oblige(st, "index", node, z3.And(idx >= -n, idx < n), what)
         s = z3.simplify(idx >= 0)
-        if z3.is_true(s):
+        if z3.is_true(s) or getattr(self, "_no_wrap", False):
             return idx
         return ite(idx >= 0, idx, idx + n)
 
@@ -191,6 +191,113 @@ class ExprMixin:
         # heterogeneous python list literal: keep as a tuple-like value
         return Tup(vals)
 
+    def e_ListComp(self, node, st):
+        """[elt for target in iter (if cond)] with one generator.  Symbolic length: the element is evaluated once for an
+        arbitrary index k; constants created on the way are replaced by skolem functions of k, so the facts hold for every k."""
+        from . import values as VV
+        if len(node.generators) != 1 or node.generators[0].is_async:
+            raise VCError("comprehension with several generators at line %d" % node.lineno)
+        gen = node.generators[0]
+        fake = ast.For(target=gen.target, iter=gen.iter, body=[], orelse=[])
+        ast.copy_location(fake, node)
+        d = self.iter_desc(gen.iter, st, fake)
+        n = z3.simplify(d["n"])
+        if z3.is_int_value(n) and n.as_long() <= 8 and not gen.ifs:
+            vals = []
+            for i in range(n.as_long()):
+                sub = st.fork()
+                d["bind"](sub, zint(i))
+                npc = len(sub.pc)
+                v = self.eval(node.elt, sub)
+                for r, o in sub.heap.items():
+                    st.heap.setdefault(r, o)
+                st.pc.extend(sub.pc[npc:] if len(sub.pc) >= npc else [])
+                vals.append(v)
+            return self.list_from_vals(st, vals)
+        if any(g.func_fresh for g in [self] if hasattr(g, "func_fresh")):
+            pass
+        k = fresh("ck", INT)
+        sub = st.fork()
+        rng = z3.And(k >= 0, k < n)
+        sub.assume(rng)
+        old_log = VV.start_fresh_log()
+        n_uf = len(self.ufuncs)
+        npc = len(sub.pc)
+        try:
+            d["bind"](sub, k)
+            conds = [truth(self.eval(c, sub)) for c in gen.ifs]
+            for c in conds:
+                sub.assume(c)
+            elt = self.eval(node.elt, sub)
+        finally:
+            log = VV.stop_fresh_log(old_log)
+        facts = sub.pc[npc:]
+        if any(c is None for c in log):
+            # a fresh witness function was created inside: the facts cannot be generalised over k soundly; keep shapes only
+            log = [c for c in log if c is not None]
+            facts = []
+            if isinstance(elt, Sc):
+                r = new_arr(elt.kind, "comp", n=n, is_list=True)
+                st.assume(n >= 0)
+                return st.alloc(r)
+            if isinstance(elt, (Ref, View)) and self.is_arr1(sub, elt):
+                kind = self.elem_kind(sub, elt)
+                lens = fresh("compl", z3.ArraySort(INT, INT))
+                kk = fresh("k", INT)
+                st.assume(qall([kk], z3.Select(lens, kk) >= 0, pats=[z3.Select(lens, kk)]))
+                return st.alloc(HListArr(kind, fresh("compa", z3.ArraySort(INT, arr_sort(kind))), lens, n))
+            raise VCError("comprehension element with witness functions at line %d" % node.lineno)
+        # skolemise: every constant created while evaluating depends on k
+        subst = []
+        for c in log:
+            if c.eq(k):
+                continue
+            f = z3.Function("sk_" + c.decl().name(), INT, c.sort())
+            subst.append((c, f(k)))
+
+        def S(t):
+            return z3.substitute(t, *subst) if subst else t
+        for r, o in sub.heap.items():
+            st.heap.setdefault(r, o)
+        cond_all = z3.And(rng, *[S(c) for c in conds]) if conds else rng
+        if gen.ifs:
+            # filtered: only the shape is kept (length between 0 and n, elements satisfy nothing in particular)
+            if isinstance(elt, Sc):
+                r = new_arr(elt.kind, "comp", is_list=True)
+                st.assume(z3.And(r.n >= 0, r.n <= n))
+                return st.alloc(r)
+            raise VCError("filtered comprehension of non-scalars at line %d" % node.lineno)
+        for f_ in facts:
+            st.assume(qall([k], z3.Implies(rng, S(f_))))
+        if isinstance(elt, Sc):
+            et = z3.simplify(S(elt.t))
+            if z3.is_select(et) and et.arg(1).eq(k) and not self.mentions(et.arg(0), k):
+                # [a[k] for k in range(n)]: the list is the prefix of a itself
+                st.assume(n >= 0)
+                return st.alloc(HArr(elt.kind, et.arg(0), n, is_list=True))
+            r = new_arr(elt.kind, "comp", n=n, is_list=True)
+            st.assume(qall([k], z3.Implies(rng, z3.Select(r.a, k) == S(elt.t)), pats=[z3.Select(r.a, k)]))
+            st.assume(n >= 0)
+            return st.alloc(r)
+        if isinstance(elt, (Ref, View)) and self.is_arr1(sub, elt):
+            kind = self.elem_kind(sub, elt)
+            a = fresh("compa", z3.ArraySort(INT, arr_sort(kind)))
+            lens = fresh("compl", z3.ArraySort(INT, INT))
+            at, lt = self.as_z3_array(sub, elt), self.length_of(sub, elt)
+            st.assume(qall([k], z3.Implies(rng, z3.And(z3.Select(a, k) == S(at), z3.Select(lens, k) == S(lt), z3.Select(lens, k) >= 0)), pats=[z3.Select(lens, k)]))
+            return st.alloc(HListArr(kind, a, lens, n))
+        if isinstance(elt, Tup) and all(isinstance(x, Sc) for x in elt.items):
+            kinds = [x.kind for x in elt.items]
+            cols = [fresh("compc", arr_sort(kd)) for kd in kinds]
+            st.assume(qall([k], z3.Implies(rng, z3.And(*[z3.Select(c, k) == S(x.t) for c, x in zip(cols, elt.items)]))))
+            return st.alloc(HListTup(kinds, cols, n))
+        raise VCError("comprehension element %r at line %d" % (elt, node.lineno))
+
+    def mentions(self, t, c):
+        if t.eq(c):
+            return True
+        return any(self.mentions(x, c) for x in t.children())
+
     def as_z3_array(self, st, v):
         """A z3 array term holding the elements of a 1-D value from index 0."""
         if isinstance(v, Ref):
@@ -280,6 +387,8 @@ class ExprMixin:
                 st.assume(z3.Implies(z3.And(y != 0, x == 0), r == 0))
                 st.assume(z3.Implies(z3.And(y > 0, x >= 0), r >= 0))
                 st.assume(z3.Implies(z3.And(y > 0, x > 0), r > 0))
+                st.assume(z3.Implies(z3.And(y > 0, x <= y), r <= 1))
+                st.assume(z3.Implies(z3.And(y > 0, x >= y), r >= 1))
             return Sc("real", r)
         if isinstance(op, ast.Pow):
             return self.power(a, b, node, st)
@@ -389,6 +498,7 @@ class ExprMixin:
                 n = self.length_of(st, a)
                 st.assume(qall([k], z3.Implies(z3.And(k >= 0, k < n, y != 0, ea == 0), z3.Select(ra, k) == 0), pats=[z3.Select(ra, k)]))
                 st.assume(qall([k], z3.Implies(z3.And(k >= 0, k < n, y > 0, ea >= 0), z3.Select(ra, k) >= 0), pats=[z3.Select(ra, k)]))
+                st.assume(qall([k], z3.Implies(z3.And(k >= 0, k < n, y > 0, z3.Select(ra, k) > 0), ea > 0), pats=[z3.Select(ra, k)]))
             return res
         if isinstance(op, ast.Add) and isinstance(a, Tup) and isinstance(b, Tup):
             return Tup(a.items + b.items)
@@ -641,7 +751,7 @@ class ExprMixin:
                 r = new_arr(o.kind, "msk")
                 st.assume(z3.And(r.n >= 0, r.n <= n))
                 # every selected element comes from the base (witness function)
-                w = z3.Function("mw!%d" % fresh_id(), INT, INT)
+                w = fresh_func("mw", INT, INT)
                 k = fresh("k", INT)
                 st.assume(qall([k], z3.Implies(z3.And(k >= 0, k < r.n), z3.And(
                     w(k) >= 0, w(k) < n, self.read_elem(st, idxv, w(k)),
